@@ -500,6 +500,10 @@ class Schema(dict, metaclass=LogicalMeta):
                 raise exc.DeleteError(
                     f"{self.__name__}: Attempt to delete required schema key: {repr(key)}"
                 )
+        for key, field in self.__parser__.fields.items():
+            if field.name in self and field.attname in self.__dict__:
+                # drop the cached attribute value of every cleared key
+                self.__dict__.pop(field.attname)
         return super().clear()
 
 
